@@ -288,6 +288,10 @@ func (c *hctx) retStmt(v *ast.ReturnStmt) term {
 			c.lostAt(v, "return arity")
 		}
 		for i, r := range v.Results {
+			if res[i].k == "struct" && res[i].vres {
+				vals = append(vals, c.vresValue(r, res[i], &pre))
+				continue
+			}
 			x, t := c.expr(r, &pre)
 			if t.k == "func" {
 				c.lostAt(r, "returned function value")
